@@ -85,6 +85,11 @@ macro_rules! verif_ev {
 // ---------------------------------------------------------------------------------------
 // Crate-private pure functions.
 
+/// The process-wide epoch `AckDeadline::new` rounds against (forces its initialisation).
+pub fn epoch() -> Instant {
+    crate::subscriptions::verif_epoch()
+}
+
 pub fn parse_ack_id(raw: &str) -> Result<u64, tonic::Status> {
     crate::api::verif_parser::parse_ack_id(raw).map(|a| a.to_string().parse::<u64>().unwrap())
 }
